@@ -198,7 +198,8 @@ func NewHello(ver int) (h *Hello, err error) {
 func (h *Hello) Len() (n uint16) {
 	n = h.Header.Len()
 	for _, e := range h.Elements {
-		n += e.Len()
+		// each element is padded to a multiple of 8 bytes
+		n += (e.Len() + 7) / 8 * 8
 	}
 	return
 }
@@ -216,7 +217,7 @@ func (h *Hello) MarshalBinary() (data []byte, err error) {
 	for _, e := range h.Elements {
 		bytes, err = e.MarshalBinary()
 		copy(data[next:], bytes)
-		next += len(bytes)
+		next += (len(bytes) + 7) / 8 * 8
 	}
 	return
 }
